@@ -8,8 +8,9 @@ TInit == InitWith([src |-> "x", kind |-> "fixed", ini |-> 0, mnum |-> 1, mden |-
 TReset == Is("reset") /\ Reset(E.cfg)
 TDelay == Is("delay") /\ (IF E.far THEN Far(E.d) ELSE (E.a = next /\ Dense(E.d)))
 TNoDelay == Is("nodelay") /\ NoDelay
+TRewind == Is("rewind") /\ Rewind
 TLoop == Is("loop") /\ E.res = "err" /\ Loop(E.calls)
-TNext == TReset \/ TDelay \/ TNoDelay \/ TLoop
+TNext == TReset \/ TDelay \/ TNoDelay \/ TLoop \/ TRewind
 Accepted ==
   LET d == TLCGet("stats").diameter IN
   IF d - 1 = Len(Rec) THEN TRUE ELSE Print(<<"REJECTED", d, ToJson(Rec[d])>>, FALSE)
